@@ -34,6 +34,8 @@ import (
 	"crypto/hmac"
 	"crypto/sha256"
 	"fmt"
+	"strconv"
+	"time"
 
 	"github.com/refraction-networking/obfs4/common/drbg"
 	"github.com/refraction-networking/obfs4/common/ntor"
@@ -62,6 +64,28 @@ const (
 
 	InlineSeedFrameLength = framing.FrameOverhead + PacketOverhead + SeedPacketPayloadLength
 )
+
+// validHandshakeMAC reports whether the MAC that follows the mark at pos authenticates the client
+// handshake received so far for the current epoch hour (or the one before or after it), the way
+// the obfs4 server handshake checks it.
+func validHandshakeMAC(nodeID *ntor.NodeID, pubkey *ntor.PublicKey, buf []byte, pos int) bool {
+	if pos < 0 || pos+MarkLength+MacLength > len(buf) {
+		return false
+	}
+	h := hmac.New(sha256.New, append(pubkey.Bytes()[:], nodeID.Bytes()[:]...))
+	macRx := buf[pos+MarkLength : pos+MarkLength+MacLength]
+	epochHour := time.Now().Unix() / 3600
+	found := false
+	for _, off := range []int64{0, -1, 1} {
+		h.Reset()
+		h.Write(buf[:pos+MarkLength])
+		h.Write([]byte(strconv.FormatInt(epochHour+off, 10)))
+		if hmac.Equal(h.Sum(nil)[:MacLength], macRx) {
+			found = true
+		}
+	}
+	return found
+}
 
 func generateMark(nodeID *ntor.NodeID, pubkey *ntor.PublicKey, representative *ntor.Representative) []byte {
 	h := hmac.New(sha256.New, append(pubkey.Bytes()[:], nodeID.Bytes()[:]...))
